@@ -46,11 +46,12 @@
 extern double gravity_minimum_mass;
 #endif // GRAVITY_GRAPE
 
-static void reb_simulation_add_local(struct reb_simulation* const r, struct reb_particle pt){
+// Stores pt at the end of the particle array (and in the tree). Returns 0 if the particle was not added.
+static int reb_simulation_add_local_store(struct reb_simulation* const r, struct reb_particle pt){
 	if (reb_boundary_particle_is_in_box(r, pt)==0){
 		// reb_particle has left the box. Do not add.
 		reb_simulation_error(r,"Particle outside of box boundaries. Did not add particle.");
-		return;
+		return 0;
 	}
 	while (r->N_allocated<=r->N){
 		unsigned int old_N_allocated = r->N_allocated;
@@ -64,15 +65,33 @@ static void reb_simulation_add_local(struct reb_simulation* const r, struct reb_
 	if (r->gravity==REB_GRAVITY_TREE || r->collision==REB_COLLISION_TREE || r->collision==REB_COLLISION_LINETREE){
         if (r->root_size==-1){
             reb_simulation_error(r,"root_size is -1. Make sure you call reb_simulation_configure_box() before using a tree based gravity or collision solver.");
-            return;
+            return 0;
         }
         if(fabs(pt.x)>r->boxsize.x/2. || fabs(pt.y)>r->boxsize.y/2. || fabs(pt.z)>r->boxsize.z/2.){
             reb_simulation_error(r,"Cannot add particle outside of simulation box.");
-            return;
+            return 0;
         }
 		reb_tree_add_particle_to_tree(r, r->N);
 	}
 	(r->N)++;
+	return 1;
+}
+
+void reb_simulation_reinsert_particle(struct reb_simulation* const r, struct reb_particle pt){
+#ifdef MPI
+	// The particle might now belong to another node.
+	reb_simulation_add(r, pt);
+#else // MPI
+	// The particle is not new to the simulation: MERCURIUS and TRACE must not run their bookkeeping for
+	// particles added during a timestep (dcrit, encounter_map, encounter_N, current_Ks).
+	reb_simulation_add_local_store(r, pt);
+#endif // MPI
+}
+
+static void reb_simulation_add_local(struct reb_simulation* const r, struct reb_particle pt){
+	if (reb_simulation_add_local_store(r, pt)==0){
+		return;
+	}
     if (r->integrator == REB_INTEGRATOR_MERCURIUS){
         struct reb_integrator_mercurius* rim = &(r->ri_mercurius);
         if (r->ri_mercurius.mode==0){ //WHFast part
